@@ -106,6 +106,8 @@ def _c17_small(args):
             out.append(x_misc.observe_scaled(fx, np, [pid], t, modes, scale, bias, ints[:3 * (len(ints) // 3)], route=route, scalar=False))
         sub = us if tier == 'thorough' else us[idx % 5::5]
         out.append(x_misc.observe_scaled(fx, np, [pid], t, modes, scale, bias, sub, route=route, scalar=True))
+        npcar = ['uint8', 'int8', 'int16', 'uint16', 'int32', 'uint32', 'float32', 'float16', 'int64', 'uint64'][idx % 10]
+        out.append(x_misc.observe_scaled(fx, np, [pid], t, modes, scale, bias, us, route=route, scalar=bool(idx % 2), npcar=npcar))
         if idx % 9 == 0 and row['o'] == 'saturate':
             # size inference for scaled objects sizes the transformed value (signed default)
             for u in us[idx % 7::7][:3]:
@@ -135,6 +137,8 @@ def _c17_wide(args):
         m = rng.choice(MODES)
         out.append(x_misc.observe_scaled(fx, np, [pid], t, m, scale, bias, us, route=rng.choice(['ctor', 'call', 'set_val']), scalar=True))
         out.append(x_misc.observe_scaled(fx, np, [pid], t, m, scale, bias, us, route=rng.choice(['ctor', 'call', 'set_val']), scalar=False))
+        out.append(x_misc.observe_scaled(fx, np, [pid], t, m, scale, bias, us, route=rng.choice(['ctor', 'call', 'set_val']), scalar=rng.random() < 0.5,
+                                         npcar=rng.choice(['uint8', 'int8', 'int16', 'uint16', 'int32', 'uint32', 'float32', 'float16', 'int64', 'uint64'])))
         ints = [u for u in us if (u * scale + bias).denominator == 1]
         if len(ints) >= 2:
             out.append(x_misc.observe_scaled(fx, np, [pid], t, m, scale, bias, ints[:3 * (len(ints) // 3)] or ints, route=rng.choice(['ctor', 'call', 'set_val']), scalar=False))
